@@ -12,6 +12,12 @@ def hook_commits():
         return []
 
 CHECKS = {
+ "C11": dict(
+    level="exploration",
+    technique="bounded-exhaustive strings per grammar position against hand-written recursive recognisers (differential with the repository's regular expressions), rapid edit-mutated valid forms, hand-enumerated node-kind/shape documents, rapid k-subsets of simultaneous violations",
+    text="Complete inside the bound for the accepted language of all 22 positions and for the claim that every violation is reported with its key in one run; shapes of calls/tags, scope keywords, creation rules, must_getter and the todo exemption are enumerated by hand.",
+    note="Trusts the harness's recognisers (written from the documented grammar) and the report parser; diagnostics are compared as (key, attribute) sets.",
+    ref="DESIGN.md §4 C11"),
  "C03": dict(
     level="exploration",
     technique="bounded-exhaustive strings over a 10-symbol alphabet (two-pass: rejected-key set vs reference pattern parser, then compiled evaluation vs reference evaluator), round-trip law on rapid Unicode strings with doubled %, rapid chunk sequences with environment variation against the DI interpreter",
